@@ -85,6 +85,9 @@ def rand_term(rng: random.Random, depth: int, meta=True, notation=0.35, substs=T
     return go(depth)
 
 
+UNSORTED_KEYS = 0.12
+
+
 def fold(e, rng: random.Random, p=0.7, max_layers=4, _layer=0, stats=None):
     """A repo pattern whose expansion is exactly e, spelled with (randomly chosen) notation where the
     expansion of a notation definition matches structurally."""
@@ -117,6 +120,13 @@ def fold(e, rng: random.Random, p=0.7, max_layers=4, _layer=0, stats=None):
             if stats is not None:
                 stats[fam] = stats.get(fam, 0) + 1
                 stats['depth'] = max(stats.get('depth', 0), _layer + 1)
+            if n.arity >= 2 and rng.random() < UNSORTED_KEYS:
+                # the same application with its map keyed in another insertion order (what Instantiate.instantiate leaves behind
+                # when it completes a node that had parameters open)
+                from frozendict import frozendict
+                order = list(range(n.arity))
+                rng.shuffle(order)
+                return P.Instantiate(n.definition, frozendict({i: args[i] for i in order}))
             return n(*args)
     k = e[0]
     if k == 'ev':
